@@ -158,7 +158,7 @@ func (c *Ctx) Violate(sig string, detail interface{}) {
 		c.res.Violations = append(c.res.Violations, Violation{Sub: c.Sub.Name, Idx: c.curIdx, Sig: sig, Detail: detail})
 	}
 	if c.Replay {
-		fmt.Printf("  violated: %s: %v\n", sig, detail)
+		fmt.Fprintf(Out, "  violated: %s: %v\n", sig, detail)
 	}
 }
 
@@ -198,10 +198,19 @@ func newSubResult(name string) *SubResult {
 	return &SubResult{Sub: name, Counts: map[string]int64{}, Max: map[string]float64{}, hashes: map[uint64]struct{}{}}
 }
 
+// Out is where the framework itself prints (the library under test prints to
+// os.Stdout through its loggers, which is redirected while cases run).
+var Out = os.Stdout
+
 // RunOne executes a single case in-process (used by replay and pinpointing).
 func RunOne(p *Prop, s *Sub, seed uint64, tier string, idx uint64, verbose bool) *SubResult {
 	res := newSubResult(s.Name)
 	c := &Ctx{Prop: p.ID, Sub: s, Seed: seed, Tier: tier, NShard: 1, Replay: verbose, res: res, curIdx: idx}
+	saved := os.Stdout
+	if devnull, err := os.OpenFile("/dev/null", os.O_WRONLY, 0); err == nil {
+		os.Stdout = devnull
+		defer func() { os.Stdout = saved; devnull.Close() }()
+	}
 	c.Guard("case", nil, func() { s.Run(c, idx) })
 	return res
 }
